@@ -164,7 +164,7 @@ def gen_history(rng, uname, pfx):
         elif q < 0.305:
             sel = []
         spec = sticky if rng.random() < 0.7 else rng.choice(specs)
-        ops.append(["view", sel, spec])
+        ops.append(["view", sel, spec] + (["abbr"] if sel and rng.random() < 0.35 else []))
         # some changes
         for _ in range(rng.choice([0, 1, 1, 2, 3])):
             m = rng.random()
@@ -484,6 +484,15 @@ def run_case(case, ctx):
                 jobs = [j for j in (find_job(project, sp) for sp in sel) if j is not None]
                 sel_ids = [j.id for j in jobs]
             job_ids = [j.id for j in jobs]
+            if len(op) > 3 and op[3] == "abbr" and sel_ids:
+                # the selection spelled with unique abbreviated ids (what `signac view -j 9f` passes through)
+                def short(i):
+                    for n in range(1, 33):
+                        if sum(1 for x in all_ids if x.startswith(i[:n])) == 1:
+                            return i[:n]
+                    return i
+                sel_ids = [short(i) for i in sel_ids]
+                tags.append("sel-abbreviated")
             sps = [plain(j.statepoint()) for j in jobs]
             prior = snapshot(view, ws)
             line = ["view", spec_token(path), "J%d" % len(jobs)]
@@ -553,6 +562,22 @@ def run_case(case, ctx):
                 except Exception as e:  # noqa
                     exc3 = e
                 again = snapshot(view, ws)
+                if sel is not None and exc3 is None and again == post:
+                    # a selection naming an id that is no job of the project is rejected, the view stays
+                    bogus = "f" * 32 if "f" * 32 not in all_ids else "e" * 32
+                    exc4 = None
+                    try:
+                        with sandboxed(d):
+                            project.create_linked_view(prefix=view, job_ids=list(sel_ids) + [bogus], path=path)
+                    except Exception as e:  # noqa
+                        exc4 = e
+                    after4 = snapshot(view, ws)
+                    if exc4 is None:
+                        fails.append("[reject] a selection containing the id %s, which names no job, was accepted" % bogus)
+                    if after4 != post:
+                        fails.append("[reject] a selection containing an unknown id changed the existing view: %r"
+                                     % (sorted(set(after4) ^ set(post))[:4],))
+                    tags.append("unknown-id-probe")
                 if exc3 is not None:
                     fails.append("[idem] running create_linked_view a second time raised %s: %s"
                                  % (outcome_of(exc3), str(exc3)[:120]))
